@@ -47,10 +47,10 @@ fn program(case: &Case) -> Program {
             Unit14::ZeroCols { forms, n_extra_write_row } => {
                 let mut rows: Vec<RowProg> = forms
                     .iter()
-                    .map(|f| RowProg { cells: if *f == RowForm::Cols { vec![Val::plain(Base::I8(1))] } else { vec![] }, form: *f })
+                    .map(|f| RowProg { cells: if *f == RowForm::Cols { vec![Val::plain(Base::I8(1))] } else { vec![] }, form: *f, offers: vec![] })
                     .collect();
                 for _ in 0..*n_extra_write_row {
-                    rows.push(RowProg { cells: vec![], form: RowForm::WriteRow });
+                    rows.push(RowProg { cells: vec![], form: RowForm::WriteRow, offers: vec![] });
                 }
                 steps.push(Step::Set { cols: vec![], rows, end: if last && case.direct_terminal { SetEnd::Finish } else { SetEnd::FinishOne } })
             }
